@@ -541,6 +541,13 @@ def run(pid, tier, replay=None):
                 chk.violation(clause, {"state_replaced_before_line_stop": t["k"], "of": t["of"], "second_thread_waited_for_the_lock": t["blocked"],
                                        "observed": {k2: t[k2] for k2 in ("pool_has_t", "head_is_new")}, "errors": t["errors"]}, {"clause": clause})
     if pid in ("C09", "C12"):
+        # ---- the relay path and the miner are the two writers of the block store's buffer (StoreLock)
+        from checks import store as store_check
+        sk.apply_cfg(cfg)
+        rc = store_check.two_writer_stage(chk, quick, rng, pid, cfg, keys)
+        if rc:
+            return rc
+    if pid in ("C09", "C12"):
         # ---- the network thread's delivery handling interleaved with the miner's found-block handling, line by line (Handover)
         from checks import handover
         sk.apply_cfg(cfg)
